@@ -2,6 +2,8 @@ package props
 
 import (
 	"bytes"
+	"crypto/sha256"
+	"encoding/hex"
 	"fmt"
 	"os"
 	"reflect"
@@ -340,6 +342,146 @@ func metaCase(c *Ctx, fam *report.Family, f string, s *PkgSpec, in map[string]an
 				}
 			}
 		}
+		// … and the main header as a whole: every entry (tag, type, count, data) in tag order against the model of the
+		// header rpmpack assembles (RpmGen.lean, rpm_main_header_reads_back) from the configuration's resolved values (the
+		// model's own string tags), the files found in the package, the configured relations, the script files and the
+		// changelog tags as found (chglog's formatting is library code)
+		func() {
+			mv := map[int]string{}
+			for i := 1; i+1 < len(toks); i += 2 {
+				tg, _ := strconv.Atoi(toks[i])
+				v, _ := wire.UnH(toks[i+1])
+				mv[tg] = v
+			}
+			x := dec.Rpm
+			optNat := func(sv string, ok bool) string {
+				if !ok {
+					return wire.H("")
+				}
+				return wire.H(sv)
+			}
+			epoch := optNat("", false)
+			if infoForModel.Epoch != "" {
+				if n, perr := strconv.ParseUint(infoForModel.Epoch, 10, 32); perr == nil {
+					epoch = optNat(strconv.FormatUint(n, 10), true)
+				} else {
+					return
+				}
+			}
+			buildTime := optNat("", false)
+			if s.MTime != wire.ZeroTime {
+				buildTime = optNat(strconv.FormatInt(s.MTime, 10), true)
+			} else if t, ok := x.Hdr[1006]; ok && len(t.Ints) == 1 {
+				buildTime = optNat(strconv.FormatUint(t.Ints[0], 10), true) // the clock: taken as found
+			}
+			comp := strings.SplitN(infoForModel.RPM.Compression, ":", 2)[0]
+			if comp == "" {
+				comp = "gzip"
+			}
+			encL := func(items []string) string {
+				var b strings.Builder
+				fmt.Fprintf(&b, "%d", len(items))
+				for _, it := range items {
+					b.WriteString(" " + wire.H(it))
+				}
+				return b.String()
+			}
+			payloadSize := 0
+			bodies := map[string][]byte{}
+			for _, ce := range x.Cpio {
+				payloadSize += len(ce.Body)
+				bodies[ce.Name] = ce.Body
+			}
+			psum := sha256.Sum256(x.PayloadRaw)
+			script := func(path string) (string, bool) {
+				if path == "" {
+					return wire.H(""), true
+				}
+				b, rerr := os.ReadFile(path)
+				if rerr != nil || bytes.IndexByte(b, 0) >= 0 {
+					return "", false
+				}
+				return wire.H(string(b)), true
+			}
+			var scr []string
+			for _, pth := range []string{infoForModel.RPM.Scripts.PreTrans, infoForModel.Scripts.PreInstall, infoForModel.Scripts.PostInstall, infoForModel.Scripts.PreRemove,
+				infoForModel.Scripts.PostRemove, infoForModel.RPM.Scripts.PostTrans, infoForModel.RPM.Scripts.Verify} {
+				h, ok := script(pth)
+				if !ok {
+					return
+				}
+				scr = append(scr, h)
+			}
+			var fl strings.Builder
+			fmt.Fprintf(&fl, "%d", len(x.Files))
+			for _, rf := range x.Files {
+				body := bodies[rf.Name]
+				sum := sha256.Sum256(body)
+				fmt.Fprintf(&fl, " %s %d %d %s %s %d %d %s %s", wire.H(rf.Name), rf.Mode, rf.Flags, wire.H(rf.User), wire.H(rf.Group), rf.MTime,
+					len(body), wire.H(hex.EncodeToString(sum[:])), wire.H(string(body)))
+			}
+			var chT, chN, chX []string
+			if t, ok := x.Hdr[1080]; ok {
+				for _, v := range t.Ints {
+					chT = append(chT, strconv.FormatUint(v, 10))
+				}
+				chN, chX = x.Hdr[1081].Strs, x.Hdr[1082].Strs
+			}
+			encN := func(items []string) string {
+				var b strings.Builder
+				fmt.Fprintf(&b, "%d", len(items))
+				for _, it := range items {
+					b.WriteString(" " + it)
+				}
+				return b.String()
+			}
+			req := strings.Join([]string{"rpmheader", wire.H(mv[1000]), wire.H(mv[1001]), wire.H(mv[1002]), epoch, wire.H(mv[1004]), wire.H(mv[1005]), wire.H(mv[1007]), buildTime,
+				encL(infoForModel.RPM.Prefixes), wire.H(comp), wire.H(mv[1022]), wire.H(mv[1021]), wire.H(mv[1011]), wire.H(mv[1014]), wire.H(mv[1015]), wire.H(mv[1016]), wire.H(mv[1020]),
+				strconv.Itoa(payloadSize), wire.H(hex.EncodeToString(psum[:])), scr[0], scr[1], scr[2], scr[3], scr[4], scr[5], scr[6], fl.String(),
+				encL(infoForModel.Provides), encL(infoForModel.Depends), encL(infoForModel.Recommends), encL(infoForModel.Replaces), encL(infoForModel.Suggests), encL(infoForModel.Conflicts),
+				encN(chT), encL(chN), encL(chX)}, " ")
+			var want strings.Builder
+			n := 0
+			for i, tg := range x.HdrOrder {
+				if i == 0 && tg == 63 {
+					continue
+				}
+				t := x.Hdr[tg]
+				var d []byte
+				switch t.Type {
+				case 3:
+					for _, v := range t.Ints {
+						d = append(d, byte(v>>8), byte(v))
+					}
+				case 4:
+					for _, v := range t.Ints {
+						d = append(d, byte(v>>24), byte(v>>16), byte(v>>8), byte(v))
+					}
+				case 6, 8:
+					for _, sv := range t.Strs {
+						d = append(append(d, sv...), 0)
+					}
+				case 7:
+					d = t.Bin
+				default:
+					return
+				}
+				n++
+				fmt.Fprintf(&want, " %d %d %d %s", t.Tag, t.Type, t.Count, wire.H(string(d)))
+			}
+			wantS := fmt.Sprintf("%d%s", n, want.String())
+			ans, aerr := c.D.Ask(req)
+			if aerr != nil || ans == "error" {
+				return
+			}
+			fam.Count("rpm:whole-header-compared")
+			if ans != wantS {
+				disagree("rpm main header as a whole (every entry in tag order) vs the model of the header rpmpack assembles", ans, wantS)
+				c.Rep.Find(report.Finding{Property: "C02", Family: fam.Name, Shape: "rpm:main-header-differs-from-configuration",
+					What:  "the main header of the rpm is not what the configuration, the files shipped, the relations and the scripts denote (an entry is missing, extra, of another type or holds other data): " + c34FirstDiff(ans, wantS),
+					Input: in2})
+			}
+		}()
 		if infoForModel.Epoch != "" {
 			if t, ok := dec.Rpm.Hdr[1003]; !ok || len(t.Ints) == 0 || strconv.FormatUint(t.Ints[0], 10) != strings.TrimLeft(infoForModel.Epoch, "0") && !(infoForModel.Epoch == "0" && t.Ints[0] == 0) {
 				c.Rep.Find(report.Finding{Property: "C02", Family: fam.Name, Shape: "rpm:epoch-differs", What: "epoch tag differs from configured epoch " + infoForModel.Epoch, Input: in2})
